@@ -60,3 +60,39 @@ func At(xs []string, i int) string {
 	}
 	return xs[i]
 }
+
+// Uniq: the search flag is declared outside the element loop (control for the search-flag rule).
+func Uniq(xs, seen []string) []string {
+	var out []string
+	dup := false
+	for _, x := range xs {
+		for _, s := range seen {
+			if s == x {
+				dup = true
+				break
+			}
+		}
+		if !dup {
+			out = append(out, x)
+		}
+	}
+	return out
+}
+
+// UniqOK: the accepted form (must NOT be reported).
+func UniqOK(xs, seen []string) []string {
+	var out []string
+	for _, x := range xs {
+		dup := false
+		for _, s := range seen {
+			if s == x {
+				dup = true
+				break
+			}
+		}
+		if !dup {
+			out = append(out, x)
+		}
+	}
+	return out
+}
